@@ -376,3 +376,17 @@ def amplify_drift(ctx, binp, rows, drifts, base_inp, info, byz, maxround, label,
     v = validate(ctx, arows, info, byz, maxround, "amp" + label, dedupe=True)
     log("drift amplification %s: %d prefixes x %d tails -> %d property failures" % (label, len(seen), tails, len(v["viol"])))
     return arows, v
+
+
+def load_prefixes(powers, byz):
+    """adversarial prefixes synthesised by lib/synth_prefixes.py for this configuration"""
+    d = os.path.join(core.VERIF, "spec", "attacks", "C03")
+    out = []
+    if os.path.isdir(d):
+        for f in sorted(os.listdir(d)):
+            if f.endswith(".json"):
+                with open(os.path.join(d, f)) as fh:
+                    a = json.load(fh)
+                if a["powers"] == powers and a["byz"] == byz:
+                    out.append(a)
+    return out
